@@ -45,6 +45,8 @@ var wants = []want{
 	{"pkg/blobserver/blobpacked/blobpacked.go", "int", "packThreshold", "pack_threshold"},
 	{"pkg/jsonsign/verify.go", "string", "sigSeparator", "sig_separator"},
 	{"pkg/serverinit/serverinit.go", "switchcases", "handlerTypeWantsAuth", "handler_types_want_auth"},
+	// true iff parsePermanodeContinueToken reads the time with strconv.ParseInt (negative = pre-1970 times parse)
+	{"pkg/search/query.go", "calls:strconv.ParseInt", "parsePermanodeContinueToken", "continue_token_signed"},
 }
 
 type fileInfo struct {
@@ -315,6 +317,19 @@ func main() {
 				fail(err)
 			}
 			fmt.Fprintf(&b, "Definition %s : string := %s.\n", w.coqName, cs)
+		case "calls:strconv.ParseInt":
+			fd, ok := fi.funcs[w.goName]
+			if !ok {
+				fail(fmt.Errorf("func not found"))
+			}
+			found := false
+			ast.Inspect(fd.Body, func(n ast.Node) bool {
+				if se, ok := n.(*ast.SelectorExpr); ok && isIdent(se.X, "strconv") && se.Sel.Name == "ParseInt" {
+					found = true
+				}
+				return true
+			})
+			fmt.Fprintf(&b, "Definition %s : bool := %v.\n", w.coqName, found)
 		case "mapkeys", "switchcases":
 			var keys []string
 			var err error
